@@ -1215,4 +1215,375 @@ theorem wrrCollect_all (ws : List Nat) (cap : Nat) : ∀ (rest pre : Pool) (wsp 
       · rw [hrec (acc ++ [pre.length]) (by simp; omega)]
         simp
 
+/-! ### further helpers used by the property theorems -/
+
+theorem cookieRes_none {w : Bool} {r : Res} (h : cookieRes w r = .none) : r = .none := by
+  unfold cookieRes at h
+  split at h
+  · split at h <;> cases h
+  · exact h
+
+theorem hashGo_congr : ∀ (p q : Pool) (i hi : Nat) (best : Res),
+    p.map (fun u => (u.avail, u.h)) = q.map (fun u => (u.avail, u.h)) → hashGo p i hi best = hashGo q i hi best
+  | [], [], _, _, _, _ => rfl
+  | [], _ :: _, _, _, _, h => by simp at h
+  | _ :: _, [], _, _, _, h => by simp at h
+  | u :: p, v :: q, i, hi, best, h => by
+    simp only [List.map_cons, List.cons.injEq, Prod.mk.injEq] at h
+    obtain ⟨⟨h1, h2⟩, h3⟩ := h
+    unfold hashGo
+    rw [h1, h2]
+    split
+    · exact hashGo_congr p q _ _ _ h3
+    · exact hashGo_congr p q _ _ _ h3
+
+theorem hashPick_max {pool : Pool} {u : Up} (h : hashPick pool = some u) :
+    u ∈ pool ∧ u.avail = true ∧ ∀ p ∈ pool, p.avail = true → p.h ≤ u.h := by
+  obtain ⟨A, B, h1, h2, _, h4, h5⟩ := (hashPick_iff pool u).1 h
+  subst h1
+  refine ⟨by simp, h2, ?_⟩
+  intro p hp hav
+  rcases List.mem_append.1 hp with hp | hp
+  · exact Nat.le_of_lt (h4 p hp hav)
+  · rcases List.mem_cons.1 hp with hp | hp
+    · subst hp; exact Nat.le_refl _
+    · exact h5 p hp hav
+
+theorem rndGo_not_starved : ∀ (rest : Pool) (i : Nat) (best : Res) (count : Nat) (ds : List Nat),
+    best ≠ .starved → rest.length ≤ ds.length → (rndGo rest i best count ds).1 ≠ .starved
+  | [], _, _, _, _, h, _ => by simpa [rndGo] using h
+  | u :: rest, i, best, count, ds, h, hl => by
+    unfold rndGo
+    split
+    · cases ds with
+      | nil => simp at hl
+      | cons d ds' =>
+        simp only
+        simp at hl
+        split
+        · exact rndGo_not_starved rest _ _ _ _ (by simp) hl
+        · exact rndGo_not_starved rest _ _ _ _ h hl
+    · exact rndGo_not_starved rest _ _ _ _ h (by simp at hl; omega)
+
+theorem lcGo_not_starved : ∀ (rest : Pool) (i : Nat) (best : Res) (count : Nat) (least : Option Nat) (ds : List Nat),
+    best ≠ .starved → rest.length ≤ ds.length → (lcGo rest i best count least ds).1 ≠ .starved
+  | [], _, _, _, _, _, h, _ => by simpa [lcGo] using h
+  | u :: rest, i, best, count, least, ds, h, hl => by
+    unfold lcGo
+    simp at hl
+    split
+    · split
+      · split
+        · exact lcGo_not_starved rest _ _ _ _ _ (by simp) (by omega)
+        · cases ds with
+          | nil => simp at hl
+          | cons d ds' =>
+            simp only
+            simp at hl
+            split
+            · exact lcGo_not_starved rest _ _ _ _ _ (by simp) hl
+            · exact lcGo_not_starved rest _ _ _ _ _ h hl
+      · exact lcGo_not_starved rest _ _ _ _ _ h (by omega)
+    · exact lcGo_not_starved rest _ _ _ _ _ h (by omega)
+
+/-! ### counting over a window of consecutive counter values -/
+
+theorem countP_window_shift (p : Nat → Bool) (W : Nat) (hp : ∀ t, p (t + W) = p t) (s : Nat) :
+    (List.range' (s + 1) W).countP p = (List.range' s W).countP p := by
+  cases W with
+  | zero => simp
+  | succ k =>
+    rw [List.range'_succ (s := s), List.range'_1_concat (s := s + 1)]
+    rw [List.countP_cons, List.countP_append]
+    have : p (s + 1 + k) = p s := by rw [← hp s]; congr 1; omega
+    simp [this]
+
+theorem countP_window (p : Nat → Bool) (W : Nat) (hp : ∀ t, p (t + W) = p t) :
+    ∀ s, (List.range' s W).countP p = (List.range' 0 W).countP p
+  | 0 => rfl
+  | s + 1 => by rw [countP_window_shift p W hp s, countP_window p W hp s]
+
+/-- `w` of the `W` positions of a cycle lie in an interval of length `w` -/
+theorem countP_interval (a w W : Nat) (h : a + w ≤ W) :
+    (List.range' 0 W).countP (fun t => decide (a ≤ t ∧ t < a + w)) = w := by
+  have hW : W = a + (w + (W - a - w)) := by omega
+  rw [hW, ← List.range'_append_1, ← List.range'_append_1, List.countP_append, List.countP_append]
+  have h1 : (List.range' 0 a).countP (fun t => decide (a ≤ t ∧ t < a + w)) = 0 := by
+    rw [List.countP_eq_zero]; intro t ht; simp at ht ⊢; omega
+  have h2 : (List.range' (0 + a) w).countP (fun t => decide (a ≤ t ∧ t < a + w)) = w := by
+    have hl : (List.range' (0 + a) w).length = w := by simp
+    have : (List.range' (0 + a) w).countP (fun t => decide (a ≤ t ∧ t < a + w)) = (List.range' (0 + a) w).length := by
+      rw [List.countP_eq_length]; intro t ht; simp at ht ⊢; omega
+    rw [this, hl]
+  have h3 : (List.range' (0 + a + w) (W - a - w)).countP (fun t => decide (a ≤ t ∧ t < a + w)) = 0 := by
+    rw [List.countP_eq_zero]; intro t ht; simp at ht ⊢; omega
+  rw [h1, h2, h3]
+  simp
+
+/-- in any `n` consecutive counter values exactly one has residue `j` -/
+theorem countP_residue (n j s : Nat) (hj : j < n) :
+    (List.range' s n).countP (fun t => decide (t % n = j)) = 1 := by
+  rw [countP_window _ n (fun t => by simp)]
+  have := countP_interval j 1 n (by omega)
+  refine Eq.trans ?_ this
+  apply List.countP_congr
+  intro t ht
+  simp at ht
+  simp [Nat.mod_eq_of_lt ht]
+  omega
+
+/-! ### round robin over a run of selections -/
+
+/-- one round-robin selection when something is available and the counter does not wrap -/
+theorem selRR_char (pool : Pool) (c : Nat) (hc : c + pool.length < u32) (ha : anyAvail pool = true) :
+    ∃ i c', selRR pool c = (.sel i, c') ∧ c < c' ∧ c' ≤ c + pool.length ∧ i = c' % pool.length ∧
+      AvailAt pool i ∧ ∀ t, c < t → t < c' → availB pool (t % pool.length) = false := by
+  obtain ⟨v, hv, hav⟩ := anyAvail_iff.1 ha
+  obtain ⟨j, hj, hja⟩ := availAt_of_mem hv hav
+  unfold selRR
+  rw [if_neg (by omega)]
+  rcases rrGo_char pool (by omega) pool.length c hc with h | ⟨_, h2⟩
+  · exact h
+  · obtain ⟨t, ht1, ht2, ht3⟩ := residue_hit pool.length c j hj
+    have := h2 t ht1 ht2
+    rw [ht3, availB_true.2 hja] at this
+    cases this
+
+theorem run_rr_succ (m : Nat) (pool : Pool) (c : Nat) (ds : List Nat) :
+    run (m + 1) (.rr c) pool ds =
+      (((selRR pool c).1, []) :: (run m (.rr (selRR pool c).2) pool ds).1, (run m (.rr (selRR pool c).2) pool ds).2) := by
+  simp [run, select]
+
+/-- the probe positions a run of round-robin selections walks over, filtered by availability -/
+def rrProbes (pool : Pool) (s k : Nat) : List Nat :=
+  (List.range' s k).filter (fun t => availB pool (t % pool.length))
+
+theorem rrProbes_append (pool : Pool) (s k l : Nat) :
+    rrProbes pool s (k + l) = rrProbes pool s k ++ rrProbes pool (s + k) l := by
+  unfold rrProbes
+  rw [← List.range'_append_1, List.filter_append]
+
+/-- **the selections of a run are exactly the available positions among the consecutive
+    counter values the run consumed** -/
+theorem rr_run (pool : Pool) (ha : anyAvail pool = true) (ds : List Nat) : ∀ (m c : Nat),
+    c + m * pool.length < u32 →
+    ∃ c', (run m (.rr c) pool ds).2 = .rr c' ∧ c ≤ c' ∧ c' ≤ c + m * pool.length ∧
+      (run m (.rr c) pool ds).1 = (rrProbes pool (c + 1) (c' - c)).map (fun t => (Res.sel (t % pool.length), []))
+  | 0, c, _ => ⟨c, rfl, Nat.le_refl _, by omega, by simp [run, rrProbes]⟩
+  | m + 1, c, hc => by
+    have hmul : (m + 1) * pool.length = m * pool.length + pool.length := Nat.succ_mul _ _
+    obtain ⟨i, c1, h1, h2, h3, h4, h5, h6⟩ := selRR_char pool c (by omega) ha
+    obtain ⟨c', g1, g2, g3, g4⟩ := rr_run pool ha ds m c1 (by omega)
+    refine ⟨c', ?_, by omega, by omega, ?_⟩
+    · rw [run_rr_succ, h1]; exact g1
+    · rw [run_rr_succ, h1]
+      simp only
+      rw [g4]
+      have hsplit : c' - c = (c1 - c - 1) + 1 + (c' - c1) := by omega
+      rw [hsplit, rrProbes_append, rrProbes_append]
+      have hfirst : rrProbes pool (c + 1) (c1 - c - 1) = [] := by
+        unfold rrProbes
+        rw [List.filter_eq_nil_iff]
+        intro t ht
+        simp at ht
+        simp [h6 t (by omega) (by omega)]
+      have hmid : rrProbes pool (c + 1 + (c1 - c - 1)) 1 = [c1] := by
+        have : c + 1 + (c1 - c - 1) = c1 := by omega
+        rw [this]
+        unfold rrProbes
+        have hav : availB pool (c1 % pool.length) = true := by rw [← h4]; exact availB_true.2 h5
+        simp [List.range', hav]
+      rw [hfirst, hmid]
+      have : c + 1 + (c1 - c - 1 + 1) = c1 + 1 := by omega
+      rw [this, h4]
+      simp
+
+theorem run_length : ∀ (m : Nat) (p : Policy) (pool : Pool) (ds : List Nat), (run m p pool ds).1.length = m
+  | 0, _, _, _ => rfl
+  | m + 1, p, pool, ds => by simp [run, run_length m]
+
+/-- availability counted over positions = availability counted over upstreams -/
+theorem countP_availB : ∀ (rest pre : Pool),
+    (List.range' pre.length rest.length).countP (fun i => availB (pre ++ rest) i) = rest.countP Up.avail
+  | [], pre => by simp
+  | u :: rest, pre => by
+    have := countP_availB rest (pre ++ [u])
+    rw [snoc_append, snoc_length] at this
+    rw [List.length_cons, List.range'_succ, List.countP_cons, List.countP_cons, this]
+    have : availB (pre ++ u :: rest) pre.length = u.avail := by simp [availB]
+    rw [this]
+
+theorem rrProbes_cycle_length (pool : Pool) (s : Nat) : (rrProbes pool s pool.length).length = numAvail pool := by
+  unfold rrProbes numAvail
+  rw [← List.countP_eq_length_filter, ← List.countP_eq_length_filter]
+  rw [countP_window _ pool.length (fun t => by simp)]
+  have := countP_availB pool []
+  simp only [List.length_nil, List.nil_append] at this
+  rw [← this]
+  apply List.countP_congr
+  intro t ht
+  simp at ht
+  rw [Nat.mod_eq_of_lt ht]
+
+/-- `numAvail` selections consume the available positions of exactly one cycle of probes -/
+theorem rrProbes_numAvail (pool : Pool) (s d : Nat) (h : (rrProbes pool s d).length = numAvail pool) :
+    rrProbes pool s d = rrProbes pool s pool.length := by
+  have hc := rrProbes_cycle_length pool
+  by_cases hd : d ≤ pool.length
+  · have : pool.length = d + (pool.length - d) := by omega
+    rw [this, rrProbes_append]
+    have hl := hc s
+    rw [this, rrProbes_append, List.length_append, h] at hl
+    have : rrProbes pool (s + d) (pool.length - d) = [] := List.length_eq_zero_iff.1 (by omega)
+    rw [this]; simp
+  · have : d = pool.length + (d - pool.length) := by omega
+    rw [this, rrProbes_append]
+    rw [this, rrProbes_append, List.length_append, hc s] at h
+    have : rrProbes pool (s + pool.length) (d - pool.length) = [] := List.length_eq_zero_iff.1 (by omega)
+    rw [this]; simp
+
+/-- **every available upstream is chosen exactly once in `numAvail` consecutive selections** -/
+theorem rr_each_once (pool : Pool) (c : Nat) (ds : List Nat) (ha : anyAvail pool = true)
+    (hc : c + numAvail pool * pool.length < u32) (j : Nat) (hj : AvailAt pool j) :
+    ((run (numAvail pool) (.rr c) pool ds).1.map (·.1)).count (.sel j) = 1 := by
+  obtain ⟨c', _, _, _, h4⟩ := rr_run pool ha ds (numAvail pool) c hc
+  have hlen := run_length (numAvail pool) (.rr c) pool ds
+  rw [h4, List.length_map] at hlen
+  rw [h4, rrProbes_numAvail pool (c + 1) (c' - c) hlen]
+  rw [List.map_map, List.count_eq_countP, List.countP_map]
+  unfold rrProbes
+  rw [List.countP_filter]
+  obtain ⟨u, hu, _⟩ := hj
+  have hjlt : j < pool.length := (List.getElem?_eq_some_iff.1 hu).1
+  refine Eq.trans ?_ (countP_residue pool.length j (c + 1) hjlt)
+  apply List.countP_congr
+  intro t _
+  simp
+  intro h1
+  rw [h1]; exact availB_true.2 ⟨u, hu, ‹_›⟩
+
+/-! ### weighted round robin over a cycle -/
+
+/-- all upstreams available, one weight per upstream: the selection at counter `c` is the owner
+    of position `(c+1) mod W` of the weight cycle -/
+theorem selWRR_owner (ws : List Nat) (pool : Pool) (c : Nat)
+    (hall : ∀ v ∈ pool, v.avail = true) (hlen : ws.length = pool.length) (h2 : 2 ≤ ws.length)
+    (hs : 0 < ws.sum) (hc : c + 1 < u32) :
+    ∃ i, ownerGo ws 0 0 ((c + 1) % ws.sum) = some i ∧ selWRR ws pool c = (.sel i, c + 1) := by
+  have hcw : (c + 1) % ws.sum < ws.sum := Nat.mod_lt _ hs
+  obtain ⟨i, hown⟩ := ownerGo_some ws 0 0 ((c + 1) % ws.sum) (Nat.zero_le _) (by omega)
+  refine ⟨i, hown, ?_⟩
+  have hcol := wrrCollect_all ws (posWeights ws).length pool [] [] ws [] rfl rfl hlen.symm hall (by simp)
+  obtain ⟨_, hidx⟩ := wrrIndexGo_owner ws 0 0 0 ((c + 1) % ws.sum) (Nat.zero_le _) (by omega)
+  rw [hown] at hidx
+  simp only [Nat.sub_zero] at hidx
+  unfold selWRR
+  rw [if_neg (by omega), if_neg (by omega), if_neg (by omega)]
+  simp only [List.length_nil, List.nil_append] at hcol
+  rw [hcol, inc32_of_lt hc]
+  simp only
+  congr 1
+  have hlt : wrrIndexGo (posWeights ws) 0 0 ((c + 1) % ws.sum) < (posIdxFrom 0 ws).length :=
+    (List.getElem?_eq_some_iff.1 hidx).1
+  unfold wrrPick wrrIndex
+  rw [if_neg (by omega), Nat.mod_eq_of_lt hlt, hidx]
+
+theorem run_wrr_succ (m : Nat) (ws : List Nat) (pool : Pool) (c : Nat) (ds : List Nat) :
+    run (m + 1) (.wrr ws c) pool ds =
+      (((selWRR ws pool c).1, []) :: (run m (.wrr ws (selWRR ws pool c).2) pool ds).1,
+        (run m (.wrr ws (selWRR ws pool c).2) pool ds).2) := by
+  simp [run, select]
+
+/-- the upstream owning counter value `t` -/
+def ownerRes (ws : List Nat) (t : Nat) : Res :=
+  match ownerGo ws 0 0 (t % ws.sum) with
+  | some i => .sel i
+  | none => .none
+
+theorem wrr_run (ws : List Nat) (pool : Pool) (ds : List Nat)
+    (hall : ∀ v ∈ pool, v.avail = true) (hlen : ws.length = pool.length) (h2 : 2 ≤ ws.length)
+    (hs : 0 < ws.sum) : ∀ (m c : Nat), c + m < u32 →
+    (run m (.wrr ws c) pool ds).1.map (·.1) = (List.range' (c + 1) m).map (ownerRes ws) ∧
+    (run m (.wrr ws c) pool ds).2 = .wrr ws (c + m)
+  | 0, c, _ => by simp [run]
+  | m + 1, c, hc => by
+    obtain ⟨i, h1, h2'⟩ := selWRR_owner ws pool c hall hlen h2 hs (by omega)
+    obtain ⟨g1, g2⟩ := wrr_run ws pool ds hall hlen h2 hs m (c + 1) (by omega)
+    rw [run_wrr_succ, h2']
+    simp only [List.map_cons, List.range'_succ]
+    refine ⟨?_, by rw [g2]; congr 1; omega⟩
+    rw [g1]
+    congr 1
+    simp [ownerRes, h1]
+
+theorem ownerGo_ge : ∀ (ws : List Nat) (i0 tot t j : Nat), ownerGo ws i0 tot t = some j → i0 ≤ j
+  | [], _, _, _, _, h => by simp [ownerGo] at h
+  | w :: ws, i0, tot, t, j, h => by
+    unfold ownerGo at h
+    split at h
+    · cases h; exact Nat.le_refl _
+    · have := ownerGo_ge ws (i0 + 1) (tot + w) t j h; omega
+
+/-- position `i0 + k` owns exactly `ws[k]` of the `ws.sum` positions of the cycle -/
+theorem countP_owner : ∀ (ws : List Nat) (i0 tot k : Nat),
+    (List.range' tot ws.sum).countP (fun t => ownerGo ws i0 tot t == some (i0 + k)) = (ws[k]?).getD 0
+  | [], _, _, _ => by simp
+  | w :: ws, i0, tot, k => by
+    rw [List.sum_cons, ← List.range'_append_1, List.countP_append]
+    have hfirst : ∀ t ∈ List.range' tot w, ownerGo (w :: ws) i0 tot t = some i0 := by
+      intro t ht
+      simp at ht
+      unfold ownerGo
+      rw [if_pos (by omega)]
+    have hsecond : ∀ t ∈ List.range' (tot + w) ws.sum, ownerGo (w :: ws) i0 tot t = ownerGo ws (i0 + 1) (tot + w) t := by
+      intro t ht
+      simp at ht
+      conv => lhs; unfold ownerGo
+      rw [if_neg (by omega)]
+    cases k with
+    | zero =>
+      have h1 : (List.range' tot w).countP (fun t => ownerGo (w :: ws) i0 tot t == some (i0 + 0)) = w := by
+        have hl : (List.range' tot w).length = w := by simp
+        have : (List.range' tot w).countP (fun t => ownerGo (w :: ws) i0 tot t == some (i0 + 0)) = (List.range' tot w).length := by
+          rw [List.countP_eq_length]; intro t ht; simp [hfirst t ht]
+        rw [this, hl]
+      have h2 : (List.range' (tot + w) ws.sum).countP (fun t => ownerGo (w :: ws) i0 tot t == some (i0 + 0)) = 0 := by
+        rw [List.countP_eq_zero]
+        intro t ht
+        rw [hsecond t ht]
+        intro hcon
+        simp at hcon
+        have := ownerGo_ge ws (i0 + 1) (tot + w) t i0 hcon
+        omega
+      rw [h1, h2]; simp
+    | succ k =>
+      have h1 : (List.range' tot w).countP (fun t => ownerGo (w :: ws) i0 tot t == some (i0 + (k + 1))) = 0 := by
+        rw [List.countP_eq_zero]; intro t ht; rw [hfirst t ht]; simp
+      have h2 : (List.range' (tot + w) ws.sum).countP (fun t => ownerGo (w :: ws) i0 tot t == some (i0 + (k + 1)))
+          = (List.range' (tot + w) ws.sum).countP (fun t => ownerGo ws (i0 + 1) (tot + w) t == some (i0 + 1 + k)) := by
+        apply List.countP_congr
+        intro t ht
+        rw [hsecond t ht]
+        have : i0 + (k + 1) = i0 + 1 + k := by omega
+        rw [this]
+      rw [h1, h2, countP_owner ws (i0 + 1) (tot + w) k]
+      simp
+
+/-- **over `W` (total weight) consecutive selections upstream `i` is chosen exactly `wᵢ` times** -/
+theorem wrr_counts (ws : List Nat) (pool : Pool) (c : Nat) (ds : List Nat)
+    (hall : ∀ v ∈ pool, v.avail = true) (hlen : ws.length = pool.length) (h2 : 2 ≤ ws.length)
+    (hs : 0 < ws.sum) (hc : c + ws.sum < u32) (i w : Nat) (hw : ws[i]? = some w) :
+    ((run ws.sum (.wrr ws c) pool ds).1.map (·.1)).count (.sel i) = w := by
+  rw [(wrr_run ws pool ds hall hlen h2 hs ws.sum c hc).1]
+  rw [List.count_eq_countP, List.countP_map]
+  rw [countP_window _ ws.sum (fun t => by simp [ownerRes])]
+  have := countP_owner ws 0 0 i
+  simp only [Nat.zero_add, hw, Option.getD_some] at this
+  refine Eq.trans ?_ this
+  apply List.countP_congr
+  intro t ht
+  simp at ht
+  simp only [Function.comp, ownerRes, Nat.mod_eq_of_lt ht]
+  cases ownerGo ws 0 0 t <;> simp
+
 end CaddyModel.C08
